@@ -161,6 +161,10 @@ CHECKS["C39"] = dict(engine="tlc+vh", level="model_checking", ref="4.19", techni
                      text="Exhaustive over values up to length 3 (thorough 4) plus a 52-word list (inf/nan/exponents/leading zeros/i64 and u64 boundaries/unicode/quotes/backslashes), in 8 pipeline templates (from, to, both, inline-declared, unknown connector, reference only in a comment, rich program, client_id_mode). Checked: the injected source parses; each injected declaration has exactly the stored parameters (AST and the runtime's ConnectorConfig); every used, stored, undeclared connector is injected; inline declarations and all other statements are unchanged.",
                      note="Trusted: the parser and the AST's serde form (spans stripped) as the meaning of 'the rest of the pipeline'. Bounded: parameter names are plain identifiers; two connectors.")
 
+CHECKS["C44"] = dict(engine="tlc+vh", level="model_checking", ref="4.19", technique="TLA+ spec (RestJson.tla): symbolic JSON terms with the API's in/out value maps (ideal and faithful variants model-checked for the round-trip law); every enumerated term sent through the real inject and inject-batch routes (warp::test on api_routes) into pipelines that emit the value, its type_of and a pipeline-built array; responses compared with strict JSON equality (integers by value, floats by bits)",
+                     text="Exhaustive over 30 leaf classes (i64/u64/2^53 boundaries, -0.0, subnormal, 1e300, integral floats, empty/unicode/escaped/NUL strings, booleans, null) and all arrays (width 2, thorough 3) and objects (2 keys) of leaves, top-level and nested one level deeper by the request, through 3 route/pipeline combinations: the value and the type the pipeline sees must equal the JSON sent.",
+                     note="Trusted: serde_json for parsing the harness's own request text and the response; warp::test. Bounded: nesting depth 2 (value inside a request array), finite representatives per class.")
+
 NOT_APPLICABLE = {
     "C41": "parser totality over arbitrary strings: no state/transition system to specify; a TLA+ model would only enumerate token strings (fuzzing under another name)",
     "C43": "LSP handler robustness over arbitrary text/cursor: per-call robustness, no protocol state in the property; outside model-based verification",
